@@ -212,6 +212,18 @@ pub fn run(toks: &[&str], out: &mut Vec<String>) -> R<()> {
                 None => return Err(NoImpl),
             }
         }
+        "constadd" => {
+            // `Quantity::new(v, <named constant>) + <quantity>` with v the quantity's own value
+            want(toks, 4)?;
+            let q = match p_opd(toks[3])? {
+                Opd::Q(q) => q,
+                _ => return Err(NoImpl),
+            };
+            match gen_consts::TABLE.iter().find(|(n, _)| *n == toks[2]) {
+                Some((_, u)) => out.push((Quantity::new(q.value, *u) + q).enc()),
+                None => return Err(NoImpl),
+            }
+        }
         "unew" => {
             want(toks, 4)?;
             let u = mk_unit(p_i64(toks[2])?, p_i64(toks[3])?)?;
